@@ -38,6 +38,7 @@ func SelfTest(o sim.Options) int {
 	fail := 0
 	for _, id := range ids {
 		sc := reg[id]
+		Configure(id)
 		if sc.Setup != nil {
 			if err := sc.Setup(); err != nil {
 				fmt.Printf("selftest %s: setup: %v\n", id, err)
@@ -105,6 +106,7 @@ func selfTestChild(o sim.Options) int {
 	if sc == nil {
 		return 2
 	}
+	Configure(id)
 	if sc.Setup != nil {
 		if err := sc.Setup(); err != nil {
 			return 2
